@@ -233,7 +233,7 @@ def run(prop, tier, seed):
             runs.append(pengine.run_slice(sl2, 3, layouts, 2, 0, [], nproc=1, tlc_workers=2, roundtrip=True,
                                           worker_setup=(register, d), named=cname_of(d)))
         if any(t == "SL" for t in d["pos"]) or any(sx["ptype"] == "L" for sx in d["slots"]):
-            if idx < (14 if tier == "quick" else 10 ** 6):
+            if idx < (14 if tier == "quick" else 150):
                 import multiprocessing as mp
                 with mp.get_context("fork").Pool(1) as pool:
                     recs, cnt, st = pool.apply(_deep_worker, ((d, devs),))
